@@ -112,6 +112,8 @@ def fault_variants(tier, seed):
         for placement in SPAN_PLACEMENTS:
             variants.append({'kind': 'F4', 'R': rid, 'opts': {}, 'tok': 'RenderFaultSpan', 'pos': 1,
                              'doc': D.fault_doc('RenderFaultSpan', placement), 'site': 'RenderFaultSpan@' + placement})
+            variants.append({'kind': 'F4', 'R': rid, 'opts': {}, 'tok': 'RenderAbortSpan', 'pos': 1,
+                             'doc': D.fault_doc('RenderAbortSpan', placement), 'site': 'RenderAbortSpan@' + placement})
         for placement in BLOCK_PLACEMENTS[:-1]:
             variants.append({'kind': 'F4', 'R': rid, 'opts': {}, 'tok': 'RenderFaultBlock', 'pos': 0,
                              'doc': D.fault_doc('RenderFaultBlock', placement), 'site': 'RenderFaultBlock@' + placement})
@@ -314,13 +316,32 @@ def toc_histories(tier):
                     variants.append({'kind': 'F2', 'tok': tok, 'pos': pos, 'doc': D.fault_doc(tok, placement)})
         for name in sorted(D.CRASHERS):
             variants.append({'kind': 'F3b', 'tok': None, 'pos': None, 'doc': D.CRASHERS[name] + '\n[ref]: /u\n'})
-        for tok, pls in (('RenderFaultSpan', SPAN_PLACEMENTS), ('RenderFaultBlock', BLOCK_PLACEMENTS[:-1])):
+        for tok, pls in (('RenderFaultSpan', SPAN_PLACEMENTS), ('RenderAbortSpan', SPAN_PLACEMENTS), ('RenderFaultBlock', BLOCK_PLACEMENTS[:-1])):
             for placement in pls:
                 variants.append({'kind': 'F4', 'tok': tok, 'pos': 0, 'doc': D.fault_doc(tok, placement)})
         for v in variants:
             out.append(('toc', [{'k': 'CTX', 'R': 'Toc', 'opts': opts, 'exit': 'normal',
                                  'steps': [head, {'k': 'TOC'}] + _fault_steps(v) + [{'k': 'TOC'}, {'k': 'RENDER', 'doc': D.PROBES['toc_doc']},
                                                                                    {'k': 'TOC'}]}]))
+    return out
+
+
+def mutate_histories(tier):
+    """'Parse, tweak the tree, render': a document is parsed, its tokens edited in place by the caller, and rendered; then
+    the same and other documents are rendered untouched, by the same instance, by another call and as a bare Document."""
+    out = []
+    names = _PROBE_NAMES
+    for ri, rid in enumerate(W.RENDERER_IDS):
+        for oi, opts in enumerate(W.OPTIONS[rid] if tier == 'thorough' else W.OPTIONS[rid][:1]):
+            for chunk in range(0, len(names), 12):
+                part = [D.PROBES[n] for n in names[chunk:chunk + 12]]
+                steps = []
+                for p in part:
+                    steps += [{'k': 'RENDER', 'doc': p, 'mutate': True}, {'k': 'RENDER', 'doc': p}]
+                other = W.RENDERER_IDS[(ri + 1 + chunk) % len(W.RENDERER_IDS)]
+                out.append(('mutate', [{'k': 'CTX', 'R': rid, 'opts': opts, 'exit': 'normal', 'steps': steps}]
+                            + [{'k': 'MD', 'R': other, 'opts': {}, 'doc': p} for p in part[:6]]
+                            + [{'k': 'BARE', 'doc': p} for p in part[6:]]))
     return out
 
 
@@ -421,8 +442,8 @@ def _random_fault(rng, rid, opts, kinds):
             v = {'kind': kind, 'tok': None, 'pos': None, 'doc': D.natural_render_fault(natural[0], placement)}
         elif rng.random() < 0.6:
             placement = SPAN_PLACEMENTS[rng.randrange(len(SPAN_PLACEMENTS))]
-            v = {'kind': kind, 'tok': 'RenderFaultSpan', 'pos': rng.randint(0, ns - 1),
-                 'doc': D.fault_doc('RenderFaultSpan', placement)}
+            tok = 'RenderFaultSpan' if rng.random() < 0.6 else 'RenderAbortSpan'
+            v = {'kind': kind, 'tok': tok, 'pos': rng.randint(0, ns - 1), 'doc': D.fault_doc(tok, placement)}
         else:
             placement = BLOCK_PLACEMENTS[rng.randrange(len(BLOCK_PLACEMENTS) - 1)]
             v = {'kind': kind, 'tok': 'RenderFaultBlock', 'pos': rng.randint(0, nb),
@@ -443,6 +464,7 @@ def random_history(rng, tier, fault_free=False, extra_docs=None):
     use_scheme = rng.random() < 0.3
     p_nest = 0.08 if rng.random() < 0.25 else 0.0
     p_remove = 0.1 if rng.random() < 0.25 else 0.0
+    p_mutate = 0.3 if rng.random() < 0.25 else 0.0
     early_fault = bool(kinds) and rng.random() < 0.34
     max_blocks = 40 if thorough and rng.random() < 0.15 else 12
     n_blocks = rng.randint(2, max_blocks)
@@ -525,6 +547,8 @@ def random_history(rng, tier, fault_free=False, extra_docs=None):
                     continue
                 steps.append({'k': 'RENDER', 'doc': doc() if rid != 'Toc' or rng.random() < 0.6 else
                               D.PROBES[('toc_refs', 'toc_doc', 'headings')[rng.randrange(3)]]})
+                if p_mutate and rng.random() < p_mutate:
+                    steps[-1]['mutate'] = True
                 if rid == 'Toc' and rng.random() < 0.4:
                     steps.append({'k': 'TOC'})
             exit_mode = 'propagate' if last_fault and rng.random() < 0.4 else 'normal'
